@@ -3,6 +3,19 @@ each property.  A unit may serve several properties; its obligations are
 generated once per check run."""
 
 UNITS = {
+    'C05': {
+        'functions': ['penman.model:Model.original_order', 'penman.model:Model.alphanumeric_order',
+                      'penman.model:Model.canonical_order', 'penman.model:Model.is_role_inverted'],
+        'lemmas': [],
+        'level': 'other',
+        'explanation': 'Proved for every model: the role sort keys -- original_order is constant (a stable sort keeps '
+                       'the order), alphanumeric_order splits a role into its name and the numeric value of its '
+                       'maximal trailing digit run (:op10 after :op2), canonical_order puts inverted roles (as the '
+                       'model decides them) last and is alphanumeric within each group.  That rearrange/reconfigure '
+                       'keep the graph content, each node\'s branches and concept position, and sort stably by the '
+                       'key is decided by the bounded stand-in (in-place sorting of nested branch lists is outside '
+                       'the engine\'s ownership model).',
+    },
     'C17': {
         'functions': ['penman.transform:reify_edges', 'penman.transform:dereify_edges',
                       'penman.transform:_dereify_agenda', 'penman.transform:reify_attributes',
